@@ -534,4 +534,721 @@ theorem positive_number_valid_of (vz vx : Variant) (fuel : Nat) (env : Env) (kvs
       simp [labelOk, GV.pos, hj]
     · exact hb
 
+/-! ### generic soundness of the positive emitters -/
+
+theorem sound_true {C g} : Sound (fun _ => True) C g := by intro _ _ _ _; trivial
+
+theorem sound_post {P Q C a f} (ha : Sound Q C a) (hf : ∀ outs, (∀ g ∈ outs, Q g) → ∀ g' ∈ f outs, P g') :
+    Sound P C (Gen.post f a) := by
+  intro st hc gv hg
+  unfold Gen.post at hc hg
+  exact hf _ (fun g h => ha st hc g h) gv hg
+
+theorem sound_scopedTmpl {P C a} (ha : Sound P C a) : Sound P C (Gen.scopedTmpl a) := by
+  intro st hc gv hg; exact ha _ hc gv hg
+
+theorem sound_setTmpl {P C t} : Sound P C (Gen.setTmpl t) := by
+  intro st _ gv h; simp [Gen.setTmpl] at h
+
+theorem sound_withTmpl {P C k} (hk : ∀ t, Sound P C (k t)) : Sound P C (Gen.withTmpl k) := by
+  intro st hc gv hg; exact hk st.tmpl st hc gv hg
+
+theorem sound_ite {P C} {c : Prop} [Decidable c] {a b : Gen} (ha : Sound P C a) (hb : Sound P C b) :
+    Sound P C (if c then a else b) := by split <;> assumption
+
+/-- `P` holds of everything built with `GV.pos` -/
+def OnPos (P : GV → Prop) : Prop := ∀ v d, P (GV.pos v d)
+/-- `P` holds of every value labelled negative -/
+def OnNeg (P : GV → Prop) : Prop := ∀ v d loc param, P ⟨v, .negative, d, loc, param⟩
+
+theorem sound_askSchema {P C s d} (h : OnPos P) : Sound P C (askSchema s d) := by
+  unfold askSchema
+  apply sound_ask; intro j _
+  apply sound_emit; intro gv hg
+  simp only [List.mem_cons, List.mem_nil_iff, or_false] at hg; subst hg; exact h j d
+
+theorem examplePrologue_pos {P kvs l gvs gv} (hP : OnPos P) (h : examplePrologue kvs l = some gvs) (hg : gv ∈ gvs) : P gv := by
+  unfold examplePrologue at h
+  split at h
+  · simp at h
+  · simp only [Option.some.injEq] at h
+    subst h
+    simp only [List.mem_append] at hg
+    rcases hg with (hg | hg) | hg
+    · unfold exPart at hg
+      split at hg
+      · split at hg
+        · simp only [List.mem_cons, List.mem_nil_iff, or_false] at hg; rw [hg]; exact hP _ _
+        · simp at hg
+      · simp at hg
+    · unfold exsPart at hg
+      simp only [List.mem_map] at hg
+      obtain ⟨a, _, rfl⟩ := hg; exact hP _ _
+    · unfold dfltPart at hg
+      split at hg
+      · split at hg
+        · simp only [List.mem_cons, List.mem_nil_iff, or_false] at hg; rw [hg]; exact hP _ _
+        · simp at hg
+      · simp at hg
+
+theorem sound_prologue {P C kvs l} (hP : OnPos P) :
+    Sound P C (match examplePrologue kvs l with | none => Gen.unsupported | some gvs => Gen.emit gvs) := by
+  split
+  · exact sound_unsupported
+  · rename_i gvs h
+    exact sound_emit fun gv hg => examplePrologue_pos hP h hg
+
+theorem sound_emit_pos1 {P C v d} (hP : OnPos P) : Sound P C (Gen.emit [GV.pos v d]) := by
+  apply sound_emit; intro gv hg
+  simp only [List.mem_cons, List.mem_nil_iff, or_false] at hg; subst hg; exact hP _ _
+
+/-- discharge `Sound P C g` for generators built from seq / if / match over the basic positive emitters -/
+macro "sound_pos" : tactic => `(tactic| repeat (first
+  | exact sound_nil | exact sound_unsupported
+  | exact sound_askSchema (by assumption) | exact sound_prologue (by assumption) | exact sound_emit_pos1 (by assumption)
+  | apply sound_seq | split))
+
+theorem sound_positiveNumber_any {P C vz vx kvs} (hP : OnPos P) : Sound P C (positiveNumber vz vx kvs) := by
+  have hb : ∀ k, Sound P C (Gen.emit ((numBoundary vz vx k).map fun (n, d) => GV.pos (.num n 0) d)) := by
+    intro k
+    apply sound_emit; intro gv hg
+    simp only [List.mem_map] at hg
+    obtain ⟨⟨n, d⟩, _, rfl⟩ := hg; exact hP _ _
+  unfold positiveNumber
+  split
+  · exact sound_unsupported
+  · split
+    · split
+      · exact sound_unsupported
+      · rename_i gvs h
+        exact sound_seq (sound_emit fun gv hg => examplePrologue_pos hP h hg) (hb _)
+    · split
+      · apply sound_seq _ (hb _)
+        apply sound_ask; intro j _
+        exact sound_emit_pos1 hP
+      · exact hb _
+
+theorem sound_positiveString_any {P C ctx kvs} (hP : OnPos P) : Sound P C (positiveString ctx kvs) := by
+  unfold positiveString strLower strUpper
+  sound_pos
+
+theorem sound_positiveArray_any {P C kvs template} (hP : OnPos P) : Sound P C (positiveArray kvs template) := by
+  unfold positiveArray
+  sound_pos
+
+theorem dedupeWrap_pos {P name tkvs} (hP : OnPos P) : ∀ (outs : List GV) (seen : List SeenKey),
+    ∀ g ∈ dedupeWrap name tkvs seen outs, P g := by
+  intro outs
+  induction outs with
+  | nil => intro seen g hg; simp [dedupeWrap] at hg
+  | cons x rest ih =>
+    intro seen g hg
+    unfold dedupeWrap at hg
+    split at hg
+    · exact ih _ g hg
+    · simp only [List.mem_cons] at hg
+      rcases hg with hg | hg
+      · subst hg; exact hP _ _
+      · exact ih _ g hg
+
+theorem sound_positiveObject_any {P C rec kvs template} (hP : OnPos P) : Sound P C (positiveObject rec kvs template) := by
+  unfold positiveObject
+  split
+  · apply sound_seq
+    · split
+      · exact sound_prologue hP
+      · apply sound_emit; intro gv hg
+        simp only [List.mem_cons, List.mem_nil_iff, or_false] at hg; subst hg; exact hP _ _
+    · apply sound_seq
+      · apply sound_emit; intro gv hg
+        simp only [List.mem_append, List.mem_filterMap, List.mem_map] at hg
+        rcases hg with (⟨name, _, hn⟩ | ⟨sel, _, rfl⟩) | hg
+        · split at hn
+          · simp only [Option.some.injEq] at hn; subst hn; exact hP _ _
+          · simp at hn
+        · exact hP _ _
+        · split at hg
+          · simp at hg
+          · simp only [List.mem_cons, List.mem_nil_iff, or_false] at hg; subst hg; exact hP _ _
+      · apply sound_forEach
+        intro ⟨name, sub⟩ _
+        exact sound_post (Q := fun _ => True) sound_true (fun outs _ g' hg' => dedupeWrap_pos hP outs _ g' hg')
+  · exact sound_unsupported
+
+/-! ### generic soundness of the negative arms -/
+
+theorem sound_emit_neg1 {P C v d path param} (hN : OnNeg P) : Sound P C (Gen.emit [GV.neg v d path param]) := by
+  apply sound_emit; intro gv hg
+  simp only [List.mem_cons, List.mem_nil_iff, or_false] at hg; subst hg; exact hN _ _ _ _
+
+theorem sound_emit_neg1' {P C v d loc param} (hN : OnNeg P) : Sound P C (Gen.emit [⟨v, .negative, d, loc, param⟩]) := by
+  apply sound_emit; intro gv hg
+  simp only [List.mem_cons, List.mem_nil_iff, or_false] at hg; subst hg; exact hN _ _ _ _
+
+theorem sound_needTemplate_any {P C kvs k} (hk : ∀ t, Sound P C (k t)) : Sound P C (needTemplate kvs k) := by
+  unfold needTemplate
+  apply sound_withTmpl; intro t
+  split
+  · exact hk _
+  · split
+    · exact sound_unsupported
+    · apply sound_ask; intro j _
+      exact sound_seq sound_setTmpl (hk j)
+
+macro "sound_neg" : tactic => `(tactic| repeat (first
+  | exact sound_nil | exact sound_unsupported | exact sound_addSeen | exact sound_setTmpl
+  | exact sound_emit_neg1 (by assumption) | exact sound_emit_neg1' (by assumption)
+  | with_reducible apply sound_seq | with_reducible apply sound_guard
+  | (with_reducible apply sound_ask; intro _ _) | (with_reducible apply sound_withSeen; intro _)
+  | (with_reducible apply sound_withTmpl; intro _)
+  | (with_reducible apply sound_needTemplate_any; intro _)
+  | split))
+
+theorem sound_negEnum_any {P C ctx value b} (hN : OnNeg P) : Sound P C (negEnum ctx value b) := by
+  unfold negEnum; sound_neg
+
+theorem sound_emitUnseen_any {P C v d ctx} (hN : OnNeg P) : Sound P C (emitUnseen v d ctx) := by
+  unfold emitUnseen; sound_neg
+
+theorem sound_negType_any {P C ctx value} (hN : OnNeg P) : Sound P C (negType ctx value) := by
+  unfold negType
+  split
+  · exact sound_unsupported
+  · apply sound_forEach; intro tag _
+    sound_neg
+
+theorem sound_negProperties_any {P C rec ctx template value} (hN : OnNeg P) : Sound P C (negProperties rec ctx template value) := by
+  unfold negProperties
+  split
+  · apply sound_forEach; intro ⟨key, sub⟩ _
+    exact sound_mapOut (Q := fun _ => True) (sound_freshSeen sound_true) (fun g _ => hN _ _ _ _)
+  · exact sound_unsupported
+
+theorem sound_negItems_any {P C rec ctx value} (hN : OnNeg P) : Sound P C (negItems rec ctx value) := by
+  unfold negItems
+  exact sound_mapOut (Q := fun _ => True) (sound_freshSeen sound_true) (fun g _ => hN _ _ _ _)
+
+theorem sound_negRequired_any {P C ctx template value} (hN : OnNeg P) : Sound P C (negRequired ctx template value) := by
+  unfold negRequired
+  split
+  · split
+    · apply sound_emit; intro gv hg
+      simp only [List.mem_map] at hg
+      obtain ⟨key, _, rfl⟩ := hg; exact hN _ _ _ _
+    · exact sound_unsupported
+  · exact sound_unsupported
+
+theorem sound_negLength_any {P C ctx kvs n d} (hN : OnNeg P) : Sound P C (negLength ctx kvs n d) := by
+  unfold negLength
+  split
+  · exact sound_unsupported
+  · apply sound_guard; apply sound_ask; intro j _; exact sound_emitUnseen_any hN
+
+/-- every value of a negative arm is labelled negative (more generally: satisfies any `P` that holds of all
+    negative-labelled values), provided the recursive calls — all made with a negative-only context — do -/
+theorem sound_negArm_any {P C rec vx ctx kvs types key value} (hN : OnNeg P)
+    (hrec : ∀ c s, c.pos = false → Sound P C (rec c s)) :
+    Sound P C (negArm rec vx ctx kvs types key value) := by
+  unfold negArm
+  cases armOf key <;> simp only [negArmTag]
+  case enum => exact sound_negEnum_any hN
+  case const => exact sound_negEnum_any hN
+  case type => exact sound_negType_any hN
+  case properties => exact sound_needTemplate_any fun t => sound_negProperties_any hN
+  case patternProperties => exact sound_unsupported
+  case items =>
+    split
+    · exact sound_negItems_any hN
+    · exact sound_nil
+  case pattern => sound_neg
+  case format => sound_neg
+  case maximum => sound_neg
+  case minimum => sound_neg
+  case exclusiveMaximum => sound_neg
+  case exclusiveMinimum => sound_neg
+  case multipleOf => apply sound_ask; intro j _; exact sound_emitUnseen_any hN
+  case minLength =>
+    split
+    · split
+      · exact sound_negLength_any hN
+      · exact sound_nil
+    · exact sound_unsupported
+  case maxLength =>
+    split
+    · split
+      · exact sound_unsupported
+      · split
+        · exact sound_negLength_any hN
+        · exact sound_nil
+    · exact sound_unsupported
+  case uniqueItems => sound_neg
+  case required => exact sound_needTemplate_any fun t => sound_negRequired_any hN
+  case additionalProperties => sound_neg
+  case allOf =>
+    split
+    · exact hrec _ _ rfl
+    · exact sound_unsupported
+  case anyOf =>
+    split
+    · apply sound_forEach; intro ⟨sub, i⟩ _
+      exact hrec _ _ rfl
+    · exact sound_unsupported
+  case other => exact sound_nil
+
+/-! ### generic soundness of cover_schema_iter; the mode theorems -/
+
+theorem sound_positiveBlock_any {P C rec vs ctx kvs ty template} (hP : OnPos P)
+    (hrec : ∀ c s, c.neg = false → Sound P C (rec c s)) : Sound P C (positiveBlock rec vs ctx kvs ty template) := by
+  unfold positiveBlock
+  split
+  · apply sound_seq
+    · apply sound_forEach; intro sub _
+      exact sound_freshSeen (hrec _ _ rfl)
+    · apply sound_seq
+      · split
+        · exact sound_nil
+        · exact sound_freshSeen (hrec _ _ rfl)
+        · exact sound_unsupported
+      · split
+        · apply sound_emit; intro gv hg
+          simp only [List.mem_map] at hg
+          obtain ⟨x, _, rfl⟩ := hg; exact hP _ _
+        · exact sound_unsupported
+        · split
+          · exact sound_emit_pos1 hP
+          · split
+            · exact sound_nil
+            · split
+              · exact sound_emit_pos1 hP
+              · split
+                · apply sound_emit; intro gv hg
+                  simp only [List.mem_cons, List.mem_nil_iff, or_false] at hg
+                  rcases hg with rfl | rfl <;> exact hP _ _
+                · split
+                  · exact sound_positiveString_any hP
+                  · split
+                    · exact sound_positiveNumber_any hP
+                    · split
+                      · exact sound_positiveArray_any hP
+                      · split
+                        · exact sound_positiveObject_any hP
+                        · exact sound_nil
+  · exact sound_unsupported
+
+theorem sound_positiveForType_any {P C rec vs ctx kvs ty}
+    (hP : ctx.pos = true → OnPos P ∧ ∀ c s, c.neg = false → Sound P C (rec c s)) :
+    Sound P C (positiveForType rec vs ctx kvs ty) := by
+  unfold positiveForType
+  split
+  · split
+    · exact sound_unsupported
+    · apply sound_ask; intro template _
+      split
+      · rename_i hp
+        exact sound_positiveBlock_any (hP hp).1 (hP hp).2
+      · exact sound_nil
+  · split
+    · rename_i hp
+      exact sound_positiveBlock_any (hP hp).1 (hP hp).2
+    · exact sound_nil
+
+theorem sound_coverCore_any {P C rec vs ctx kvs types}
+    (hP : ctx.pos = true → OnPos P ∧ ∀ c s, c.neg = false → Sound P C (rec c s))
+    (hN : ctx.neg = true → OnNeg P ∧ ∀ c s, c.pos = false → Sound P C (rec c s)) :
+    Sound P C (coverCore rec vs ctx kvs types) := by
+  unfold coverCore
+  apply sound_seq
+  · split
+    · exact sound_guard (sound_positiveForType_any hP)
+    · exact sound_nil
+  · apply sound_seq
+    · apply sound_forEach; intro ty _
+      exact sound_guard (sound_positiveForType_any hP)
+    · split
+      · rename_i hn
+        apply sound_scopedTmpl
+        apply sound_forEach; intro ⟨key, value⟩ _
+        exact sound_guard (sound_negArm_any (hN hn).1 (hN hn).2)
+      · exact sound_nil
+
+theorem sound_coverBody_any {P C rec vs ctx schema}
+    (hP : ctx.pos = true → OnPos P ∧ ∀ c s, c.neg = false → Sound P C (rec c s))
+    (hN : ctx.neg = true → OnNeg P ∧ ∀ c s, c.pos = false → Sound P C (rec c s)) :
+    Sound P C (coverBody rec vs ctx schema) := by
+  unfold coverBody
+  split
+  · exact sound_coverCore_any hP hN
+  · split
+    · exact sound_unsupported
+    · split
+      · exact sound_unsupported
+      · exact sound_coverCore_any hP hN
+  · exact sound_unsupported
+
+/-- a positive-only context yields only values labelled positive (all schemas, all oracles, whole recursion) -/
+theorem cover_positive_only_aux : ∀ (fuel : Nat) (vs : Vs) (ctx : Ctx) (schema : Json), ctx.neg = false →
+    Sound (fun gv => gv.mode = Mode.positive) (fun _ => True) (cover fuel vs ctx schema) := by
+  intro fuel
+  induction fuel with
+  | zero => intro vs ctx schema _; exact sound_unsupported
+  | succ n ih =>
+    intro vs ctx schema hneg
+    unfold cover
+    apply sound_coverBody_any
+    · intro _
+      exact ⟨fun v d => rfl, fun c s hc => ih vs c s hc⟩
+    · intro hn; rw [hneg] at hn; cases hn
+
+theorem cover_negative_only_aux : ∀ (fuel : Nat) (vs : Vs) (ctx : Ctx) (schema : Json), ctx.pos = false →
+    Sound (fun gv => gv.mode = Mode.negative) (fun _ => True) (cover fuel vs ctx schema) := by
+  intro fuel
+  induction fuel with
+  | zero => intro vs ctx schema _; exact sound_unsupported
+  | succ n ih =>
+    intro vs ctx schema hpos
+    unfold cover
+    apply sound_coverBody_any
+    · intro hp; rw [hpos] at hp; cases hp
+    · intro _
+      exact ⟨fun v d loc param => rfl, fun c s hc => ih vs c s hc⟩
+
+/-! ### the negative numeric arms -/
+
+/-- a schema object without `$ref` rejects a non-null value as soon as one keyword family does -/
+theorem validF_false_of_number {fuel env kvs m e} (href : Json.lookup "$ref" kvs = none)
+    (h : numberOk kvs (.num m e) = false) : validF (fuel + 1) env (.obj kvs) (.num m e) = false := by
+  simp [validF, href, Json.isNull, keywordsOk, h]
+
+theorem validF_false_of_type {fuel env kvs v} (href : Json.lookup "$ref" kvs = none) (hnull : env.oas = Oas.none)
+    (h : typeOk kvs v = false) : validF (fuel + 1) env (.obj kvs) v = false := by
+  have : isNullable env kvs = false := by simp [isNullable, hnull]
+  simp [validF, href, this, keywordsOk, h]
+
+theorem numLt_irrefl (m : Int) (e : Nat) : numLt m e m e = false := by simp [numLt]
+
+/-- `maximum + 1` violates `maximum` (whatever else the schema says) -/
+theorem neg_maximum_rejected {fuel env kvs} {n : Int} (href : Json.lookup "$ref" kvs = none)
+    (h : Json.lookup "maximum" kvs = some (.num n 0)) :
+    validF (fuel + 1) env (.obj kvs) (.num (n + 1) 0) = false ∧ maximumOk kvs (n + 1) 0 = false := by
+  have hm : maximumOk kvs (n + 1) 0 = false := by
+    unfold maximumOk
+    simp only [h]
+    have h1 : numLe (n + 1) 0 n 0 = false := by simp [numLe, pow10]; omega
+    have h2 : numLt (n + 1) 0 n 0 = false := by simp [numLt, pow10]; omega
+    split <;> simp [h1, h2]
+  exact ⟨validF_false_of_number href (by simp [numberOk, hm]), hm⟩
+
+theorem neg_minimum_rejected {fuel env kvs} {n : Int} (href : Json.lookup "$ref" kvs = none)
+    (h : Json.lookup "minimum" kvs = some (.num n 0)) :
+    validF (fuel + 1) env (.obj kvs) (.num (n - 1) 0) = false ∧ minimumOk kvs (n - 1) 0 = false := by
+  have hm : minimumOk kvs (n - 1) 0 = false := by
+    unfold minimumOk
+    simp only [h]
+    have h1 : numLe n 0 (n - 1) 0 = false := by simp [numLe, pow10]; omega
+    have h2 : numLt n 0 (n - 1) 0 = false := by simp [numLt, pow10]; omega
+    split <;> simp [h1, h2]
+  exact ⟨validF_false_of_number href (by simp [numberOk, hm]), hm⟩
+
+/-- the numeric form of an exclusive bound is itself outside the range -/
+theorem neg_exclusiveMaximum_rejected {fuel env kvs} {m : Int} {e : Nat} (href : Json.lookup "$ref" kvs = none)
+    (h : Json.lookup "exclusiveMaximum" kvs = some (.num m e)) :
+    validF (fuel + 1) env (.obj kvs) (.num m e) = false ∧ maximumOk kvs m e = false := by
+  have hm : maximumOk kvs m e = false := by
+    unfold maximumOk
+    simp [h, numLt_irrefl]
+  exact ⟨validF_false_of_number href (by simp [numberOk, hm]), hm⟩
+
+theorem neg_exclusiveMinimum_rejected {fuel env kvs} {m : Int} {e : Nat} (href : Json.lookup "$ref" kvs = none)
+    (h : Json.lookup "exclusiveMinimum" kvs = some (.num m e)) :
+    validF (fuel + 1) env (.obj kvs) (.num m e) = false ∧ minimumOk kvs m e = false := by
+  have hm : minimumOk kvs m e = false := by
+    unfold minimumOk
+    simp [h, numLt_irrefl]
+  exact ⟨validF_false_of_number href (by simp [numberOk, hm]), hm⟩
+
+/-! ### the `type` arm -/
+
+theorem strList_any {ts : List Json} {types : List String} (h : strList? ts = some types) (f : String → Bool) :
+    (ts.any fun t => match t with | .str t => f t | _ => false) = types.any f := by
+  induction ts generalizing types with
+  | nil => simp [strList?] at h; subst h; rfl
+  | cons x rest ih =>
+    cases x <;> simp [strList?] at h
+    rename_i s
+    cases hr : strList? rest with
+    | none => simp [hr] at h
+    | some r =>
+      simp [hr] at h; subst h
+      simp [List.any_cons, ih hr]
+
+theorem typeOk_of_types {kvs value types v} (ht : typeList? value = some types)
+    (hl : Json.lookup "type" kvs = some value) : typeOk kvs v = types.any (typeNameOk · v) := by
+  unfold typeOk
+  rw [hl]
+  cases value <;> simp [typeList?] at ht
+  · rename_i s; subst ht; simp
+  · rename_i ts; simp only; exact strList_any ht _
+
+/-- a value of the JSON type named by a tag `_negative_type` draws from is rejected by `type` -/
+theorem negType_typeOk_false {types tags : List String} {tag : String} {v : Json}
+    (hg : negTypeTags types = some tags) (hm : tag ∈ tags) (hv : tagOk tag v = true) :
+    types.any (typeNameOk · v) = false := by
+  unfold negTypeTags at hg
+  split at hg
+  · simp at hg
+  · rename_i hboth
+    simp only [Option.some.injEq] at hg
+    subst hg
+    simp only [List.mem_map, List.mem_filter] at hm
+    obtain ⟨t, ⟨ht, hc⟩, rfl⟩ := hm
+    simp only [Bool.and_eq_true, Bool.not_eq_true', Bool.and_eq_false_imp, beq_iff_eq] at hc
+    rw [List.any_eq_false]
+    intro t' ht' habs
+    have hin : ∀ s, types.contains s = false → t' ≠ s := by
+      intro s hs e; subst e
+      have : types.contains t' = true := by simpa using ht'
+      rw [hs] at this; cases this
+    simp only [typeOrder, List.mem_cons, List.mem_nil_iff, or_false] at ht
+    rcases ht with rfl | rfl | rfl | rfl | rfl | rfl | rfl
+    all_goals (cases v <;> simp [tagOk, typeNameOk] at hv habs hc ⊢)
+    all_goals (first | done | grind)
+
+/-! ### the `multipleOf` arm -/
+
+theorem isNullable_none {env : Env} (h : env.oas = Oas.none) (kvs) : isNullable env kvs = false := by
+  simp [isNullable, h]
+
+theorem validF_allOf2 {f env s1 s2 v} (hoas : env.oas = Oas.none) :
+    validF (f + 1) env (.obj [("allOf", .arr [s1, s2])]) v = (validF f env s1 v && validF f env s2 v) := by
+  cases v <;>
+  simp [validF, Json.lookup, isNullable_none hoas, keywordsOk, typeOk, enumOk, constOk, numberOk, minimumOk, maximumOk,
+    multipleOfOk, stringOk, formatOk, arrayOk, objectOk, combinatorsOk, lenBoundsOk, natKw, propsOf, patternPropsOf,
+    requiredOf]
+
+theorem validF_not {f env s v} (hoas : env.oas = Oas.none) :
+    validF (f + 1) env (.obj [("not", s)]) v = !(validF f env s v) := by
+  cases v <;>
+  simp [validF, Json.lookup, isNullable_none hoas, keywordsOk, typeOk, enumOk, constOk, numberOk, minimumOk, maximumOk,
+    multipleOfOk, stringOk, formatOk, arrayOk, objectOk, combinatorsOk, lenBoundsOk, natKw, propsOf, patternPropsOf,
+    requiredOf]
+
+theorem validF_only_multipleOf {f env x v} (hoas : env.oas = Oas.none) :
+    validF (f + 1) env (.obj [("multipleOf", x)]) v = numberOk [("multipleOf", x)] v := by
+  cases v <;>
+  simp [validF, Json.lookup, isNullable_none hoas, keywordsOk, typeOk, enumOk, constOk, numberOk, minimumOk, maximumOk,
+    multipleOfOk, stringOk, formatOk, arrayOk, objectOk, combinatorsOk, lenBoundsOk, natKw, propsOf, patternPropsOf,
+    requiredOf]
+
+/-- an answer to `generate_from_schema(_with_negated_key(schema, "multipleOf", x))` is rejected by the schema itself -/
+theorem neg_multipleOf_rejected {fuel fuel' env kvs x v} (hoas : env.oas = Oas.none)
+    (href : Json.lookup "$ref" kvs = none) (hx : Json.lookup "multipleOf" kvs = some x)
+    (h : validF (fuel + 3) env (withNegatedKey kvs "multipleOf" x) v = true) :
+    validF (fuel' + 1) env (.obj kvs) v = false := by
+  unfold withNegatedKey at h
+  rw [validF_allOf2 hoas, Bool.and_eq_true, validF_not hoas, validF_only_multipleOf hoas] at h
+  have h2 := h.2
+  cases v with
+  | num m e =>
+    apply validF_false_of_number href
+    simp only [Bool.not_eq_true', numberOk, minimumOk, maximumOk, multipleOfOk, Json.lookup] at h2
+    simp only [numberOk, multipleOfOk, hx]
+    cases x <;> simp_all
+  | _ => simp [numberOk] at h2
+
+/-! ### plain numeric schemas, arm by arm -/
+
+theorem sound_mono_calls {P C C' g} (h : ∀ c, C' c → C c) (hg : Sound P C g) : Sound P C' g := by
+  intro st hc gv hgv; exact hg st (fun c hm => h c (hc c hm)) gv hgv
+
+theorem oracleOk_callSound {fuel env c} (h : oracleOk fuel env c) : callSound fuel env c := by
+  unfold oracleOk at h; unfold callSound
+  split <;> simp_all
+
+theorem labelOk_neg {fuel env S v d loc param} (h : validF fuel env S v = false) :
+    labelOk fuel env S ⟨v, .negative, d, loc, param⟩ = true := by
+  simp [labelOk, h]
+
+abbrev NumP (fuel : Nat) (env : Env) (kvs : List (String × Json)) : GV → Prop :=
+  fun gv => labelOk (fuel + 3) env (.obj kvs) gv = true
+
+/-- the `type` arm on a plain numeric schema -/
+theorem sound_negType_numeric {fuel env kvs ctx t} (hoas : env.oas = Oas.none)
+    (href : Json.lookup "$ref" kvs = none) (ht : Json.lookup "type" kvs = some (.str t)) :
+    Sound (NumP fuel env kvs) (oracleOk (fuel + 3) env) (negType ctx (.str t)) := by
+  unfold negType
+  cases hg : (typeList? (.str t)).bind negTypeTags with
+  | none => exact sound_unsupported
+  | some tags =>
+    have hg' : negTypeTags [t] = some tags := by simpa [typeList?] using hg
+    apply sound_forEach; intro tag htag
+    apply sound_ask; intro v hv
+    apply sound_withSeen; intro seen
+    split
+    · exact sound_nil
+    · refine sound_seq ?_ sound_addSeen
+      apply sound_emit; intro gv hgv
+      simp only [List.mem_cons, List.mem_nil_iff, or_false] at hgv; subst hgv
+      apply labelOk_neg
+      apply validF_false_of_type href hoas
+      rw [typeOk_of_types (types := [t]) (by simp [typeList?]) ht]
+      exact negType_typeOk_false hg' htag (by simpa [oracleOk] using hv)
+
+theorem lookup_num_of_intKw {kvs key value o} (hl : Json.lookup key kvs = some value) (hk : intKw? kvs key = some o) :
+    value = .null ∨ ∃ m, value = .num m 0 := by
+  cases o with
+  | none => rcases intKw_none hk with h | h <;> rw [hl] at h <;> simp at h; left; exact h
+  | some m => have := intKw_some hk; rw [hl] at this; right; exact ⟨m, by simpa using this⟩
+
+theorem lookup_of_exKw {kvs key value o} (hl : Json.lookup key kvs = some value) (hk : exKw? kvs key = some o) :
+    value = .null ∨ (∃ b, value = .bool b) ∨ ∃ m, value = .num m 0 := by
+  cases o with
+  | none => rcases exKw_none hk with h | h <;> rw [hl] at h <;> simp at h; left; exact h
+  | some e =>
+    cases e with
+    | flag b => have := exKw_flag hk; rw [hl] at this; right; left; exact ⟨b, by simpa using this⟩
+    | num m => have := exKw_num hk; rw [hl] at this; right; right; exact ⟨m, by simpa using this⟩
+
+/-- every negative arm of a plain numeric schema labels its values correctly (repaired exclusive-bound site) -/
+theorem sound_negArm_numeric {fuel env kvs k rec ctx types key value} (hoas : env.oas = Oas.none)
+    (hp : PlainNumeric kvs) (hparse : parseNumKw kvs = some k) (hmem : (key, value) ∈ kvs) :
+    Sound (NumP fuel env kvs) (oracleOk (fuel + 3) env) (negArm rec .repaired ctx kvs types key value) := by
+  have href : Json.lookup "$ref" kvs = none := hp.plain.1
+  have hl := hp.noShadow key value hmem
+  obtain ⟨f1, f2, f3, f4, f5, _⟩ := parse_fields hparse
+  unfold negArm
+  rcases hp.keys key value hmem with rfl | rfl | rfl | rfl | rfl | rfl | hother
+  · -- type
+    obtain ⟨t, ht, _⟩ := hp.typed
+    rw [hl] at ht; cases ht
+    show Sound _ _ (negType ctx (.str t))
+    exact sound_negType_numeric hoas href hl
+  · -- maximum
+    show Sound _ _ (negArmTag rec .repaired ctx kvs types .maximum value)
+    simp only [negArmTag]
+    rcases lookup_num_of_intKw hl f2 with rfl | ⟨m, rfl⟩
+    · simp only [pyInt?]; exact sound_unsupported
+    · simp only [pyInt?]
+      apply sound_withSeen; intro seen
+      split
+      · exact sound_nil
+      · refine sound_seq ?_ sound_addSeen
+        apply sound_emit; intro gv hgv
+        simp only [List.mem_cons, List.mem_nil_iff, or_false] at hgv; subst hgv
+        exact labelOk_neg (neg_maximum_rejected href hl).1
+  · -- minimum
+    show Sound _ _ (negArmTag rec .repaired ctx kvs types .minimum value)
+    simp only [negArmTag]
+    rcases lookup_num_of_intKw hl f1 with rfl | ⟨m, rfl⟩
+    · simp only [pyInt?]; exact sound_unsupported
+    · simp only [pyInt?]
+      apply sound_withSeen; intro seen
+      split
+      · exact sound_nil
+      · refine sound_seq ?_ sound_addSeen
+        apply sound_emit; intro gv hgv
+        simp only [List.mem_cons, List.mem_nil_iff, or_false] at hgv; subst hgv
+        exact labelOk_neg (neg_minimum_rejected href hl).1
+  · -- exclusiveMaximum
+    show Sound _ _ (negArmTag rec .repaired ctx kvs types .exclusiveMaximum value)
+    simp only [negArmTag]
+    rcases lookup_of_exKw hl f4 with rfl | ⟨b, rfl⟩ | ⟨m, rfl⟩
+    · exact sound_unsupported
+    · exact sound_nil
+    · apply sound_withSeen; intro seen
+      split
+      · exact sound_nil
+      · refine sound_seq ?_ sound_addSeen
+        apply sound_emit; intro gv hgv
+        simp only [List.mem_cons, List.mem_nil_iff, or_false] at hgv; subst hgv
+        exact labelOk_neg (neg_exclusiveMaximum_rejected href hl).1
+  · -- exclusiveMinimum
+    show Sound _ _ (negArmTag rec .repaired ctx kvs types .exclusiveMinimum value)
+    simp only [negArmTag]
+    rcases lookup_of_exKw hl f3 with rfl | ⟨b, rfl⟩ | ⟨m, rfl⟩
+    · exact sound_unsupported
+    · exact sound_nil
+    · apply sound_withSeen; intro seen
+      split
+      · exact sound_nil
+      · refine sound_seq ?_ sound_addSeen
+        apply sound_emit; intro gv hgv
+        simp only [List.mem_cons, List.mem_nil_iff, or_false] at hgv; subst hgv
+        exact labelOk_neg (neg_exclusiveMinimum_rejected href hl).1
+  · -- multipleOf
+    show Sound _ _ (negArmTag rec .repaired ctx kvs types .multipleOf value)
+    simp only [negArmTag]
+    apply sound_ask; intro v hv
+    unfold emitUnseen
+    apply sound_withSeen; intro seen
+    split
+    · exact sound_nil
+    · refine sound_seq ?_ sound_addSeen
+      apply sound_emit; intro gv hgv
+      simp only [List.mem_cons, List.mem_nil_iff, or_false] at hgv; subst hgv
+      exact labelOk_neg (neg_multipleOf_rejected hoas href hl (by simpa [oracleOk] using hv))
+  · rw [hother]; simp only [negArmTag]; exact sound_nil
+
+/-! ### plain numeric schemas, end to end -/
+
+theorem getK_none_of_lookup {kvs k} (h : Json.lookup k kvs = none) : getK kvs k = none := by
+  simp [getK, h]
+
+/-- the positive block of a plain numeric schema is `_positive_number` -/
+theorem sound_positiveBlock_numeric {fuel env kvs k rec ctx t template} (hp : PlainNumeric kvs)
+    (ht : Json.lookup "type" kvs = some (.str t)) (htt : t = "integer" ∨ t = "number")
+    (hparse : parseNumKw kvs = some k) (hpos : ∀ x, k.multipleOf = some x → 0 < x)
+    (hsat : ∃ n0 : Int, validF (fuel + 3) env (.obj kvs) (.num n0 0) = true) :
+    Sound (NumP fuel env kvs) (oracleOk (fuel + 3) env)
+      (positiveBlock rec ⟨.repaired, .repaired⟩ ctx kvs (some t) template) := by
+  obtain ⟨h1, h2, h3, h4, h5, h6, h7, h8⟩ := hp.plain
+  unfold positiveBlock
+  simp only [subSchemas?, getK_none_of_lookup h5, getK_none_of_lookup h6, getK_none_of_lookup h7, h2, h3]
+  apply sound_seq
+  · exact sound_nil
+  · apply sound_seq
+    · exact sound_nil
+    · have hnum : Sound (NumP fuel env kvs) (oracleOk (fuel + 3) env) (positiveNumber .repaired .repaired kvs) :=
+        sound_mono_calls (fun c h => oracleOk_callSound h)
+          (positive_number_valid_of .repaired .repaired (fuel + 2) env kvs k rfl hparse
+            (by rcases htt with rfl | rfl; exact Or.inl ht; exact Or.inr ht) hp.plain hpos hsat)
+      rcases htt with rfl | rfl <;> simpa using hnum
+
+/-- C03 for the numeric keyword family, end to end -/
+theorem cover_numeric_sound (fuel n : Nat) (env : Env) (hoas : env.oas = Oas.none) (ctx : Ctx)
+    (kvs : List (String × Json)) (k : NumKw) (hp : PlainNumeric kvs)
+    (hparse : parseNumKw kvs = some k) (hpos : ∀ x, k.multipleOf = some x → 0 < x)
+    (hsat : ∃ n0 : Int, validF (fuel + 3) env (.obj kvs) (.num n0 0) = true) :
+    Sound (NumP fuel env kvs) (oracleOk (fuel + 3) env)
+      (coverTop (n + 1) ⟨.repaired, .repaired⟩ ctx (.obj kvs)) := by
+  obtain ⟨t, ht, htt⟩ := hp.typed
+  unfold coverTop
+  apply sound_freshSeen
+  unfold cover coverBody
+  simp only
+  split
+  · exact sound_unsupported
+  · have hty : typesOf? kvs = some [t] := by simp [typesOf?, ht, typeList?]
+    simp only [hty]
+    unfold coverCore
+    have hpft : Sound (NumP fuel env kvs) (oracleOk (fuel + 3) env)
+        (positiveForType (cover n ⟨.repaired, .repaired⟩) ⟨.repaired, .repaired⟩ ctx kvs (some t)) := by
+      unfold positiveForType
+      have hne : (some t == some "object" || some t == some "array") = false := by
+        rcases htt with rfl | rfl <;> decide
+      simp only [hne, Bool.false_eq_true, if_false]
+      split
+      · exact sound_positiveBlock_numeric hp ht htt hparse hpos hsat
+      · exact sound_nil
+    apply sound_seq
+    · simp only [List.isEmpty_cons, Bool.false_eq_true, if_false]; exact sound_nil
+    · apply sound_seq
+      · apply sound_forEach; intro ty hty'
+        simp only [List.mem_cons, List.mem_nil_iff, or_false] at hty'; subst hty'
+        exact sound_guard hpft
+      · split
+        · apply sound_scopedTmpl
+          apply sound_forEach; intro ⟨key, value⟩ hm
+          exact sound_guard (sound_negArm_numeric hoas hp hparse hm)
+        · exact sound_nil
+
 end SV.Proofs.C03
